@@ -1126,8 +1126,38 @@ func checkPositionInForest(p *Program, r *Report, rule string, core *ssa.Functio
 	// return there, with the claimed position and the leaf count followed through the helper's parameters
 	for _, sc := range callsIn(p, core) {
 		h := sc.call.Common().StaticCallee()
-		if h == nil || !p.owns(h) || h.Blocks == nil || errorResultIndex(h.Signature) < 0 {
+		if h == nil || !p.owns(h) || h.Blocks == nil {
 			continue
+		}
+		// the helper reports failure through an error, or through a boolean that guards a failing return of the core
+		failing := errorReturns(h)
+		if errorResultIndex(h.Signature) < 0 {
+			failing = nil
+			bi := h.Signature.Results().Len() - 1
+			if bi < 0 || !types.Identical(h.Signature.Results().At(bi).Type(), types.Typ[types.Bool]) {
+				continue
+			}
+			// the core returns an error under the false outcome of that boolean
+			guardsCore := false
+			for _, ret := range errorReturns(core) {
+				for _, g := range guardsAt(ret.Block()) {
+					if ex, ok := g.Cond.(*ssa.Extract); ok && ex.Tuple == ssa.Value(sc.call) && ex.Index == bi && !g.Truth {
+						guardsCore = true
+					}
+					if c, ok := g.Cond.(*ssa.Call); ok && c == sc.call && bi == 0 && !g.Truth {
+						guardsCore = true
+					}
+				}
+			}
+			if !guardsCore {
+				continue
+			}
+			for _, ret := range returnsOf(h) {
+				ops := retOperands(ret)
+				if c, ok := ops[bi].(*ssa.Const); ok && c.Value != nil && c.Value.String() == "false" {
+					failing = append(failing, ret)
+				}
+			}
 		}
 		args := sc.call.Common().Args
 		var hTargets, hCount []ssa.Value
@@ -1171,7 +1201,7 @@ func checkPositionInForest(p *Program, r *Report, rule string, core *ssa.Functio
 				return false
 			}, 0, map[ssa.Value]bool{})
 		}
-		for _, ret := range errorReturns(h) {
+		for _, ret := range failing {
 			for _, g := range guardsAt(ret.Block()) {
 				rel, ok := relOf(g)
 				if !ok {
@@ -1183,7 +1213,7 @@ func checkPositionInForest(p *Program, r *Report, rule string, core *ssa.Functio
 					continue
 				}
 				if (inT(rel.X) && inC(rel.Y) && !inC(rel.X)) || (inT(rel.Y) && inC(rel.X) && !inC(rel.Y)) {
-					r.Discharge(rule, key, posOf(p, ret), "a failing return of "+p.FuncName(h)+", whose error the core hands on, is guarded by a comparison of the claimed position with a bound computed from the leaf count", true)
+					r.Discharge(rule, key, posOf(p, ret), "a failing return of "+p.FuncName(h)+", whose outcome the core turns into its error, is guarded by a comparison of the claimed position with a bound computed from the leaf count", true)
 					return
 				}
 			}
@@ -1526,7 +1556,7 @@ func checkSiblingTests(p *Program, r *Report, rule string, a *verifyAnchors) {
 			}
 		}
 	}
-	r.Floor(rule, "sibling tests in the hashing core", n, 2)
+	r.Floor(rule, "sibling tests in the hashing core", n, 1)
 }
 
 // ---------------------------------------------------------------------------
@@ -1886,11 +1916,40 @@ func siblingMovesToParent(p *Program, x, k ssa.Value) bool {
 	if next == nil || par == nil {
 		return false
 	}
+	d := par.Common().Args[0]
 	sib := callOf(next.Common().Args[0], "sibling", 1)
 	if sib == nil {
-		return false
+		// the step extracted into a helper that is handed both d and sibling(d): resolve the two
+		// parameters at every call site
+		ps, isPS := next.Common().Args[0].(*ssa.Parameter)
+		pd, isPD := d.(*ssa.Parameter)
+		if !isPS || !isPD || ps.Parent() != pd.Parent() {
+			return false
+		}
+		fn := ps.Parent()
+		si, di := paramIndex(fn, ps), paramIndex(fn, pd)
+		callers := 0
+		for _, g := range p.Funcs {
+			for _, b := range g.Blocks {
+				for _, in := range b.Instrs {
+					c, ok := in.(*ssa.Call)
+					if !ok || c.Common().StaticCallee() != fn {
+						continue
+					}
+					callers++
+					args := c.Common().Args
+					if si >= len(args) || di >= len(args) {
+						return false
+					}
+					sc := callOf(args[si], "sibling", 1)
+					if sc == nil || !sameExpr(sc.Common().Args[0], args[di], 0) {
+						return false
+					}
+				}
+			}
+		}
+		return callers > 0 && sameExpr(next.Common().Args[1], d, 0) && sameExpr(next.Common().Args[2], par.Common().Args[1], 0)
 	}
-	d := par.Common().Args[0]
 	return sameExpr(sib.Common().Args[0], d, 0) && sameExpr(next.Common().Args[1], d, 0) && sameExpr(next.Common().Args[2], par.Common().Args[1], 0)
 }
 
